@@ -17,7 +17,25 @@ TIMES = {
     "half-offset": [-0.5, 0, 0.5, 1.0, 1.5],
     "nonuniform": [0.3, 1.0, 4.5, 4.75, 9.0],
     "neg-int": [-2, 0, 1, 5, 6],
+    # spacing far below the magnitude (relative 5e-6) and far below any absolute tolerance: still strictly increasing times
+    "large-offset": [100000, 100000.5, 100001, 100001.5, 100002],
+    "tiny": [0, 1e-9, 2e-9, 3e-9, 4e-9],
 }
+
+
+def exact(block):
+    """dyadic alphabets: every distance / radius sum is exact in binary floating point, so contact (surface distance == 0)
+    is decidable and counts as NOT overlapping"""
+    return block["alph"].endswith("dyadic")
+
+
+def overlapping(s, block):
+    """surface distance s -> True (overlap) / False (disjoint or exact contact) / None (ambiguous knife-edge)"""
+    if exact(block):
+        return bool(s < 0)
+    if abs(s) < TOL:
+        return None
+    return bool(s < 0)
 
 
 def alphabet(name, ph=0.0):
@@ -37,6 +55,13 @@ def alphabet(name, ph=0.0):
     if name == "1d-full":
         pos = [0.4, 1.5, 2.7, 3.9, 5.2]
         return [([p + ph], r) for p in pos for r in (0.35, 0.8)], 6.0, 1
+    if name == "1d-dyadic":
+        dph = {0.0: 0.0, 0.03: 0.125, 0.07: 0.25}[ph]
+        return [([p + dph], r) for p in (0.5, 2.0, 5.0) for r in (0.5, 1.0)], 6.0, 1
+    if name == "2d-dyadic":
+        dph = {0.0: 0.0, 0.03: 0.125, 0.07: 0.25}[ph]
+        # (0.5,0.5)-(3.5,4.5) is a 3-4-5 triangle: distance exactly 5 = 2 + 3 (contact), < 3 + 3 (overlap), > 2 + 2 (apart)
+        return [([x + dph, y], r) for (x, y) in ((0.5, 0.5), (3.5, 4.5), (8.5, 0.5)) for r in (2.0, 3.0)], 16.0, 2
     if name == "2d":
         return [([x + ph, y], 0.6) for x in (0.5, 2.2, 4.1) for y in (0.5, 4.1)] + [([2.2 + ph, 2.2], 1.1)], 5.0, 2
     if name == "2d-full":
@@ -102,10 +127,22 @@ def make_blocks(tier, seed):
         # motion: frame 1 = up to 3 lattice droplets, frame 2 = up to 2 (thorough: 3) droplets on the lattice displaced by 0/0.3/-0.9/1.4
         for i0 in range(56):
             out.append({"alph": "1d-motion", "phase": ph, "cfg": cfg, "maxn": 3 if tier == "thorough" else 2, "ordered": False, "depth": 2, "times": "half-offset", "motion": True, "first": i0})
+        # exactly representable lattices: touching droplets (surface distance exactly 0) do not overlap
+        add("1d-dyadic", 2, False, 2, "unit", split=True)
+        add("1d-dyadic", 1, True, 3, "neg-int")
+        add("2d-dyadic", 2, False, 2, "half-offset", split=True)
+        # times whose spacing is tiny relative to their magnitude / in absolute terms
+        for tv in ("large-offset", "tiny"):
+            add("1d", 1, True, 3, tv)
+            add("1d-small", 2, False, 2, tv)
         add("2d", 2, False, 2, "half-offset", split=True)
         add("2d", 1, True, 3, "unit")
         add("3d", 2, False, 2, "neg-int")
         if tier == "thorough":
+            add("1d-dyadic", 2, False, 3, "half-offset", split=True)
+            add("1d-dyadic", 3, False, 2, "nonuniform", split=True, min_len=2)
+            add("1d-small", 2, False, 3, "large-offset", split=True)
+            add("1d", 1, True, 4, "tiny", split=True)
             add("1d", 2, False, 3, "half-offset", split=True)
             add("1d-full", 2, False, 3, "unit", split=True)
             add("1d-full", 3, False, 2, "nonuniform", split=True, min_len=2)
@@ -146,7 +183,7 @@ def build(block, hist):
     ems = []
     for fr in hist:
         # alternate the droplet class between types so that class information must survive as well
-        ems.append(Emulsion([(DiffuseDroplet(np.array(T[i][0], float), T[i][1], 0.1 * (i + 1)) if block["alph"].startswith("2d") else SphericalDroplet(np.array(T[i][0], float), T[i][1])) for i in fr]))
+        ems.append(Emulsion([(DiffuseDroplet(np.array(T[i][0], float), T[i][1], 0.1 * (i + 1)) if block["alph"] in ("2d", "2d-full") else SphericalDroplet(np.array(T[i][0], float), T[i][1])) for i in fr]))
     etc = EmulsionTimeCourse(ems, times=list(times))
     return etc, T, L, dim, list(times)
 
